@@ -118,8 +118,13 @@ func (q *queue) Close() {
 	q.mu.Unlock()
 }
 
-func (q *queue) setNonblock(b bool) { q.mu.Lock(); q.nonblock = b; q.total, q.taken = len(q.buf), 0; q.mu.Unlock() }
-func (q *queue) pending() int       { q.mu.Lock(); defer q.mu.Unlock(); return len(q.buf) }
+func (q *queue) setNonblock(b bool) {
+	q.mu.Lock()
+	q.nonblock = b
+	q.total, q.taken = len(q.buf), 0
+	q.mu.Unlock()
+}
+func (q *queue) pending() int { q.mu.Lock(); defer q.mu.Unlock(); return len(q.buf) }
 func (q *queue) xor(off int, m byte) {
 	q.mu.Lock()
 	q.buf[off] ^= m
@@ -941,9 +946,9 @@ func runC32(c *Ctx) error {
 	c.Cases.Shard = c.N(40, 60)
 	// corpus: the confirmed defect of the pinned tree (write 10 bytes, read with a 4-byte buffer)
 	corpusCase(c)
-	nStream := c.N(260, 2600)
-	nNonce := c.N(60, 400)
-	nHand := c.N(130, 1300)
+	nStream := c.N(260, 1400)
+	nNonce := c.N(60, 300)
+	nHand := c.N(130, 700)
 	for i := 0; i < nNonce; i++ {
 		nonceCase(c)
 	}
